@@ -641,3 +641,49 @@ def ancestor_walk(check: Check, repo: Repo, rule: str = "ANCESTOR-WALK") -> None
             check.ob(rule, last or fn, f"{q}: the root position (None) counts as an ancestor", root_ok,
                      "falls through to `None in <set>` after the chain ended" if root_ok else
                      "after the chain ended the root position None is not looked up")
+
+
+# -- what is executed is what was collected for *this* operation -----------------------------------------
+
+
+def collected_origin(check: Check, repo: Repo, rule: str = "COLLECTED-ORIGIN") -> None:
+    from sa.effects import Origins
+
+    check.rule(
+        rule,
+        "in Executor.execute_operation the grouped field set and the defer usages handed to "
+        "execute_collected_root_fields come, on every path, from the collect_fields(...) call made for this "
+        "operation in this function (reaching definitions through locals): a per-event executor that reuses a "
+        "field set cached by someone else, or substitutes `()` for the defer usages, no longer answers an "
+        "event the way a fresh execution of the same selection set would (a root-level @defer is no longer "
+        "rejected)",
+    )
+    fn = repo.func("execution.executor", "Executor.execute_operation")
+    calls = [c for c in walk_body(fn) if isinstance(c, ast.Call) and last_attr(c) == "execute_collected_root_fields"]
+    if not calls:
+        raise AnalysisError("execute_operation: execute_collected_root_fields call not found")
+    org = Origins(fn)
+
+    def from_collect(name: str, at: ast.AST, depth: int = 0) -> tuple[bool, str]:
+        defs = org.reaching(name, at)
+        if not defs:
+            return False, f"`{name}` has no definition here"
+        for d in defs:
+            v = d.value
+            if v is None:
+                return False, f"`{name}` defined without a value (line {getattr(d.node, 'lineno', '?')})"
+            if isinstance(v, ast.Call) and last_attr(v) == "collect_fields":
+                continue
+            if isinstance(v, ast.Name) and depth < 3:
+                ok, why = from_collect(v.id, d.node, depth + 1)
+                if ok:
+                    continue
+                return False, why
+            return False, f"`{name} = {unparse(v)[:50]}` (line {getattr(d.node, 'lineno', '?')}) is not the result of collect_fields(...)"
+        return True, "every reaching definition is (a component of) the collect_fields(...) result"
+
+    for c in calls:
+        for a in c.args:
+            if isinstance(a, ast.Name) and a.id in ("grouped_field_set", "new_defer_usages"):
+                ok, why = from_collect(a.id, c)
+                check.ob(rule, c, f"execute_collected_root_fields(... {a.id} ...)", ok, why)
